@@ -43,6 +43,7 @@ SELFTEST = [
 
 
 def check(ctx):
+    lib_mux.canon_roles(ctx.prog, 'libp2p_mplex')
     prog = ctx.prog
     old = mir.RENDER_MAX[0]
     mir.RENDER_MAX[0] = 40
